@@ -129,6 +129,13 @@ CHECKS = {
              "least-squares; Close/Roll/SelectActive through the real Backtest.run with solver-chosen close, roll and start dates.",
         technique="symbolic execution of bt/algos.py risk/close/roll algos, z3 per path, concrete replay",
         ref="DESIGN.md §3 C20"),
+    'C11': dict(
+        text="Symbolic non-interference: two backtests built from one template (stateful, nested, tie-ranking, random algos) run in a solver-chosen order give "
+             "the same histories as run alone; the template's reachable state and every input-frame cell are identical before and after; run() twice changes "
+             "nothing; `set` inside bt is replaced by a set with solver-chosen iteration order and two independently permuted runs must agree; random algos run "
+             "on a symbolic RNG stream. Complementary concrete run in fresh interpreters under PYTHONHASHSEED 0..3.",
+        technique="relational symbolic execution (two runs, solver-chosen order / set-iteration permutations / RNG stream), z3 per path; 4-seed subprocess run as complement",
+        ref="DESIGN.md §3 C11"),
 }
 
 NOT_YET = "check not built yet in this session (planned in DESIGN.md §3); will move to checks when its harness lands"
